@@ -17,7 +17,7 @@ from harness.common import Sym
 
 SYMS = ['prose', '', '    indented prose', '>>> x = 1', '>>> f(', '... 2)', '...', ">>> s = '''", "text'''",
         '1', '    2', '>>>', '    >>> y = 3', 'Example:', '>>> print(x)', '>>> x  # doctest: +SKIP',
-        '>>> # xdoctest: +SKIP', '    ... z', '>>> @dec', '>>> def f(): pass', '>>> x; y', '\t>>> t = 1']
+        '>>> # xdoctest: +SKIP', '    ... z', '>>> @dec', '>>> def f(): pass', '>>> x; y', '\t>>> t = 1', '  body', '   - leaf']
 
 
 EXTRA_SYMS = ['>>>\tq = 1', '>>> \xe9 = 1', '\xa0>>> n = 1', '>>> w = 1\x0c', 'prose\x0cmore', '            >>> deep = 1', '            deep want',
@@ -56,10 +56,9 @@ def same_up_to_indent_and_hack(docline, partline):
     for j in range(0, k + 1):
         if docline[j:] == partline:
             return True
-        # display prefix inserted by the triple-quote hack
-        for i in range(0, len(partline) + 1):
-            if partline[i:i + 4] == '... ' and partline[:i] + partline[i + 4:] == docline[j:]:
-                return True
+        # display prefix inserted by the triple-quote hack: at the prompt column, i.e. in front of the de-indented line
+        if partline[:4] == '... ' and partline[4:] == docline[j:]:
+            return True
     return False
 
 
